@@ -12,7 +12,7 @@ Section Sort.
   Variable key : A -> K.
   Variable ltb : K -> K -> bool.
 
-  (* insert x after every element that is not greater than it: stable *)
+  (* insert x before the first element with a greater key.  NOT stable for equal keys (runs of equal keys come out reversed); every use either has unique keys or only compares the keys of the result *)
   Fixpoint insert (x : A) (l : list A) : list A :=
     match l with
     | [] => [x]
